@@ -190,10 +190,10 @@ func workerMain(spec *Spec, args []string) {
 			if !w.capped {
 				w.exploreSubtree(c, m.Prefix)
 			}
-			send(workerMsg{T: "d", N: w.leaves})
+			send(workerMsg{T: "d", N: w.leaves, Final: w.flush()})
 		}
 	}()
-	send(workerMsg{T: "final", Final: w.final()})
+	send(workerMsg{T: "final", Final: w.flush()})
 }
 
 // singleMain runs exactly one choice sequence (crash confirmation).
@@ -318,7 +318,11 @@ func runFamily(spec *Spec, f *Family, variant, bin, tier string, seed int64) *fa
 				if int(atomic.LoadInt64(&next)) >= len(shards)-1 {
 					return
 				}
-				fin, crashed, kind, cur, errmsg := runWorker(bin, f, tier, variant, shards, &next, deadline, hang)
+				fin, crashed, kind, cur, errmsg := runWorker(bin, f, tier, variant, shards, &next, deadline, hang, func(p *workerFinal) {
+					mu.Lock()
+					mergeFinal(res, p)
+					mu.Unlock()
+				})
 				mu.Lock()
 				if fin != nil {
 					mergeFinal(res, fin)
@@ -406,7 +410,7 @@ func lessChoices(a, b []int) bool {
 
 // runWorker starts one worker process and feeds it shards until none remain
 // or it dies. It returns the final stats (nil if it died).
-func runWorker(bin string, f *Family, tier, variant string, shards [][]int, next *int64, deadline time.Time, hang int) (fin *workerFinal, crashed bool, kind string, cur []int, errmsg string) {
+func runWorker(bin string, f *Family, tier, variant string, shards [][]int, next *int64, deadline time.Time, hang int, part func(*workerFinal)) (fin *workerFinal, crashed bool, kind string, cur []int, errmsg string) {
 	cmd := exec.Command(bin, "--worker", f.Name, tier, variant)
 	cmd.Env = append(os.Environ(), "GOMAXPROCS=2", "VERIF_DEADLINE="+strconv.FormatInt(deadline.Unix(), 10), "GOTRACEBACK=single")
 	stdin, _ := cmd.StdinPipe()
@@ -475,6 +479,9 @@ func runWorker(bin string, f *Family, tier, variant string, shards [][]int, next
 				}
 			case "d":
 				lastChange = time.Now()
+				if m.Final != nil {
+					part(m.Final) // the results of the shard just completed survive a later crash of this worker
+				}
 				if feeding {
 					feeding = feed()
 				}
@@ -578,7 +585,9 @@ func triageCrash(res *famResult, bin string, f *Family, tier, variant string, sh
 	}
 	if deaths == 3 {
 		sig := "fatal:" + f.Name + ":" + k2
-		if f.FatalPerCase {
+		if f.FatalKey != nil {
+			sig += ":" + f.FatalKey(choices)
+		} else if f.FatalPerCase {
 			sig += fmt.Sprintf(":case=%v", choices)
 		}
 		res.violN[sig]++
@@ -922,7 +931,9 @@ func replayMain(spec *Spec, path string) int {
 		switch {
 		case died:
 			obs[i] = "fatal:" + f.Name + ":" + kind
-			if f.FatalPerCase {
+			if f.FatalKey != nil {
+				obs[i] += ":" + f.FatalKey(rec.Violation.Choices)
+			} else if f.FatalPerCase {
 				obs[i] += fmt.Sprintf(":case=%v", rec.Violation.Choices)
 			}
 		case fin == nil:
